@@ -30,6 +30,7 @@ struct Stmt {
   bool phony = false;
   std::vector<std::string> outs, explicitIns, implicitIns, orderOnly;
   bool depfile = false;
+  bool readsOrd = false;   // (with depfile) the tool reads its order-only inputs and lists them in the depfile: the generated-header idiom
   bool restat = false, generator = false;
   bool rsp = false;                       // the command takes its inputs from a response file the driver writes
   int pool = 0;                           // 0: none, n: depth n
@@ -42,6 +43,7 @@ struct Stmt {
       return a;
     };
     j.set("name", name).setb("phony", phony).set("outs", lst(outs)).set("explicit", lst(explicitIns)).set("implicit", lst(implicitIns));
+    if (readsOrd) j.setb("reads_orderonly", true);
     j.set("orderonly", lst(orderOnly)).setb("depfile", depfile).setb("restat", restat).setb("generator", generator).setb("rsp", rsp).set("pool", pool).set("salt", (int64_t)salt);
     return j;
   }
@@ -59,6 +61,7 @@ struct Stmt {
     s.implicitIns = lst(j.geta("implicit"));
     s.orderOnly = lst(j.geta("orderonly"));
     s.depfile = j.getb("depfile");
+    s.readsOrd = j.getb("reads_orderonly");
     s.restat = j.getb("restat");
     s.generator = j.getb("generator");
     s.rsp = j.getb("rsp");
@@ -283,6 +286,11 @@ struct Run {
       if (!(p && p->phony)) keep.push_back(i);
     }
     c.inputs = keep;
+    if (st.readsOrd && st.depfile)
+      for (auto& i : st.orderOnly) {
+        const Stmt* p = man.producer(i);
+        if (p && !p->phony && std::find(c.inputs.begin(), c.inputs.end(), i) == c.inputs.end()) c.extra.push_back(i);
+      }
     return c;
   }
 
@@ -297,7 +305,8 @@ struct Run {
     if (!p || p->phony) return readSim(path, out);
     wb::Cmd c = cmdFor(*p);
     wb::ReadFn rd = [this, &c](const std::string& q, std::string* o) -> bool {
-      if (std::find(c.inputs.begin(), c.inputs.end(), q) != c.inputs.end() && man.producer(q) && !man.producer(q)->phony) return expected(q, o);
+      bool mine = std::find(c.inputs.begin(), c.inputs.end(), q) != c.inputs.end() || std::find(c.extra.begin(), c.extra.end(), q) != c.extra.end();
+      if (mine && man.producer(q) && !man.producer(q)->phony) return expected(q, o);
       return readSim(q, o);
     };
     wb::ToolResult tr = wb::toolCompute(c, rd);
@@ -533,6 +542,15 @@ struct Run {
         }
         if (r && status != Rec::Never && r->produced.count(i) != (p ? 1u : 0u)) producerSetChanged = true;
       }
+      // a discovered input that another statement produces (an order-only input the tool read and listed in its depfile)
+      // changes when that statement runs in this invocation
+      if (r && status == Rec::Ok)
+        for (auto& d : r->discovered) {
+          const Stmt* p = man.producer(d);
+          if (!p || p->phony) continue;
+          upChanged = or3(upChanged, pathChanged.count(d) ? pathChanged[d] : pChanged[p->name]);
+          upValue = or3(upValue, pathValue.count(d) ? pathValue[d] : pValue[p->name]);
+        }
       // an alias with nothing behind it (and no file of that name) always propagates
       for (auto* a : aliases)
         if (a->explicitIns.empty() && a->implicitIns.empty() && !stateOf(a->outs[0]).exists) upChanged = or3(upChanged, Y);
@@ -968,12 +986,14 @@ public:
         return srcs[rng.below(srcs.size())];
       };
       std::set<std::string> used;
-      int ne = (int)rng.range(1, 2);
+      // one statement in eight has no explicit or implicit input at all (a constant-file command; order-only inputs at most)
+      bool noInputs = rng.chance(120);
+      int ne = noInputs ? 0 : (int)rng.range(1, 2);
       for (int k = 0; k < ne; k++) {
         std::string p = pick();
         if (used.insert(p).second) s.explicitIns.push_back(p);
       }
-      if (rng.chance(300)) {
+      if (!noInputs && rng.chance(300)) {
         std::string p = pick();
         if (used.insert(p).second) s.implicitIns.push_back(p);
       }
@@ -982,10 +1002,13 @@ public:
         if (used.insert(p).second) s.orderOnly.push_back(p);
       }
       unsigned kind = (unsigned)rng.below(100);
-      if (kind < 35) s.depfile = true;
+      if (kind < 35) {
+        s.depfile = true;
+        s.readsOrd = !s.orderOnly.empty() && rng.chance(500);
+      }
       else if (kind < 45) s.restat = true;
       else if (kind < 50) s.generator = true;
-      else if (kind < 62) s.rsp = true;
+      else if (kind < 62 && !noInputs) s.rsp = true;
       if (rng.chance(250)) s.pool = (int)rng.range(1, 3);   // 3: ninja's console pool (depth 1, output not buffered)
       // later statements may depend on an alias (a phony statement with no file behind it) instead of on files
       if (!aliasName.empty() && rng.chance(450)) {
